@@ -8,7 +8,7 @@
                    only — the same target under which it is desired, if it is desired.
    (Two targets whose roots coincide can violate them; the harness generates such cases and judges
    them with the oracle and the model comparison.) *)
-From AP Require Import Base.Str Gen.Tables Model.Deploy Model.Status Proofs.DeployP Proofs.ConvergeP Proofs.StatusCleanP.
+From AP Require Import Base.Str Gen.Tables Model.Deploy Model.Status Proofs.DeployP Proofs.ConvergeP Proofs.StatusCleanP Proofs.RepeatP.
 Open Scope N_scope.
 
 (* every desired output holds exactly the rendered bytes; every previously managed output that is
@@ -68,6 +68,17 @@ Theorem C05_idempotent : forall w roots D flt st adopt,
 Proof. intros w roots D flt st adopt HD HM. exact (redeploy_noop w roots D flt HD HM st adopt). Qed.
 Print Assumptions C05_idempotent.
 
+(* ... and so is any number of repeats, each with its own confirmation style and --adopt flag:
+   every one plans nothing, reports "no changes" and leaves the world (files, manifests, snapshot
+   records) exactly as the first deploy left it.  (The harness repeats once; the n-fold form is a
+   statement about the model's deploy_cmd.) *)
+Theorem C05_idempotent_n : forall w roots D flt (rs : list (style * bool)),
+  wfD roots D -> wfM D (managed_for_plan w roots flt) ->
+  let w' := apply_plan KDeploy w roots D (plan (files w) D (managed_for_plan w roots flt)) in
+  redeploys rs flt w' roots D = (map (fun _ => ([], ONoChanges)) rs, w').
+Proof. intros w roots D flt rs HD HM. exact (redeploys_noop w roots D flt rs HD HM). Qed.
+Print Assumptions C05_idempotent_n.
+
 (* the defect repaired by /repo commit 4759d45 (F2), kept as a regression witness of the model:
    had the snapshot fallback counted manifest writes as managed outputs, the re-plan after a deploy
    with an empty desired state would delete the manifest.  With the repaired rule it is empty. *)
@@ -118,3 +129,15 @@ Proof.
   - vm_compute. reflexivity.
   - vm_compute. reflexivity.
 Qed.
+
+(* three repeats with different styles on the converged F2 world: each plans nothing *)
+Example C05_idempotent_n_nonvacuous :
+  let r := Build_root (s "codex") [s "h"; s "codex"] false in
+  let pa := [s "h"; s "codex"; s "a.md"] in
+  let man := FMan (Parsed 1 (s "codex") [(s "a.md", 1)]) in
+  let f : fs := upd (upd (fun _ => None) (mf_path r) (Some man)) pa (Some (FBytes 1)) in
+  let w := Build_world f [] in
+  let w' := apply_plan KDeploy w [r] [] (plan f [] (managed_for_plan w [r] None)) in
+  fst (redeploys [(SJsonYes, false); (SExplicit, true); (SInteractive, false)] None w' [r] [])
+  = [([], ONoChanges); ([], ONoChanges); ([], ONoChanges)].
+Proof. vm_compute. reflexivity. Qed.
